@@ -8,7 +8,7 @@
    validly signed by its signer over (hash, signer, accept), signer among the
    current arbiters. *)
 From Coq Require Import ZArith List Bool.
-From ELA Require Import model.C25_Confirm proof.C25_Confirm.
+From ELA Require Import model.C25_Confirm model.C25_Dispatch proof.C25_Confirm proof.C25_Dispatch.
 Import ListNotations.
 Local Open Scope Z_scope.
 
@@ -62,6 +62,39 @@ Theorem C25_two_confirms_intersect : forall pverify vverify arbs fb c1 c2,
 Proof. exact two_confirms_intersect. Qed.
 Print Assumptions C25_two_confirms_intersect.
 
+(* Vote-collection side (dpos/manager/proposaldispatcher.go + the two vote
+   handlers).  For every stream of operations — start a proposal on a clean
+   dispatcher, park a vote, deliver a vote through the on-duty or the normal
+   handler under either message command — whenever the collected accept votes
+   exceed the majority count (the dispatcher declares the quorum and assembles
+   the confirm "processing proposal + all collected accept votes"), that
+   confirm passes ConfirmSanityCheck && ConfirmContextCheck ... *)
+Theorem C25_dispatcher_quorum_checks : forall vverify arbs fb pverify ops st p,
+  starts_clean vverify arbs fb pverify d_empty ops = true ->
+  run vverify arbs fb d_empty ops = st ->
+  d_prop st = Some p ->
+  has_majority arbs fb (length (d_acc st)) = true ->
+  confirm_check pverify vverify arbs fb {| c_prop := p; c_votes := d_acc st |} = true.
+Proof. exact dispatcher_quorum_checks. Qed.
+Print Assumptions C25_dispatcher_quorum_checks.
+
+(* ... hence it carries more than floor(2n/3) distinct current arbiters, every
+   collected vote accepting, validly signed, for exactly this proposal. *)
+Theorem C25_dispatcher_confirm_sound : forall pverify vverify arbs fb ops st p,
+  Z.of_nat (length arbs) < 65536 ->
+  starts_clean vverify arbs fb pverify d_empty ops = true ->
+  run vverify arbs fb d_empty ops = st ->
+  d_prop st = Some p ->
+  has_majority arbs fb (length (d_acc st)) = true ->
+  let n := Z.of_nat (length arbs) in
+  exists S : list Z,
+    NoDup S /\ incl S (map a_key arbs) /\ 2 * n / 3 < Z.of_nat (length S) /\
+    (forall k, In k S -> exists v, In v (d_acc st) /\ v_signer v = k /\ good_vote vverify arbs p v) /\
+    (forall v, In v (d_acc st) -> good_vote vverify arbs p v) /\
+    In (p_sponsor p) (map a_key arbs).
+Proof. exact dispatcher_confirm_sound. Qed.
+Print Assumptions C25_dispatcher_confirm_sound.
+
 (* Non-vacuity: with 4 arbiters (majority 2) three distinct good votes are
    accepted; two good votes, or three votes by two signers, are not; a vote by
    an abnormal arbiter or with a failing signature rejects the confirmation. *)
@@ -79,4 +112,20 @@ Example C25_nonvacuous :
   confirm_check ex_pv ex_vv ex_arbs 0 (ex_conf [ex_vote 11; ex_vote 12; ex_vote 13; ex_vote 14]) = false /\
   confirm_check ex_pv ex_vv ex_arbs 0
     (ex_conf [ex_vote 11; ex_vote 12; ex_vote 13; {| v_hash := 7; v_signer := 12; v_accept := true; v_sig := 1 |}]) = false.
+Proof. vm_compute. repeat split; reflexivity. Qed.
+
+(* Non-vacuity, dispatcher: 4 arbiters (one abnormal); a parked vote, two
+   accepts, a reject vote sent under the accept command (ignored), then the
+   third accept declares the quorum. *)
+Definition ex_rvote k := {| v_hash := 7; v_signer := k; v_accept := false; v_sig := 0 |}.
+Definition ex_vv2 (k h : Z) (a : bool) (s : Z) := if a then (s =? k * h) else (s =? 0).
+Definition ex_ops := [ OPend (ex_vote 12); OStart {| p_sponsor := 11; p_hash := 7; p_sig := 18 |};
+                       ODuty (ex_vote 11) true; ONormal (ex_rvote 12) true; ODuty (ex_vote 12) true;
+                       ONormal (ex_vote 13) true ].
+Example C25_dispatcher_nonvacuous :
+  starts_clean ex_vv2 ex_arbs 0 ex_pv d_empty ex_ops = true /\
+  trace ex_vv2 ex_arbs 0 d_empty ex_ops =
+    [(false, false); (false, false); (true, false); (false, false); (false, false); (true, true)] /\
+  length (d_acc (run ex_vv2 ex_arbs 0 d_empty ex_ops)) = 3%nat /\
+  has_majority ex_arbs 0 3 = true /\ has_majority ex_arbs 0 2 = false.
 Proof. vm_compute. repeat split; reflexivity. Qed.
